@@ -187,6 +187,18 @@ def scan_module(prog, m):
                     if n.func.id == "id" and id(n) in memo_keys:
                         continue            # memo[id(self)] = copy: the deepcopy protocol's own bookkeeping, the value is unused
                     out.append(("E2", n.lineno, "", f"{n.func.id}() call", f"{n.func.id}() depends on object identity / hash seed"))
+            if d is None or d.startswith("ixai."):
+                # a call of a package helper whose entropy source is a parameter defaulting to a function of the global
+                # generators (`def _draw(*, uniform=random.random)`): a draw site like a direct call
+                tgt = None
+                if isinstance(n.func, ast.Name):
+                    r = prog.resolve_name(m, n.func.id)
+                    tgt = r[1][1] if r and r[0] == "func" else None
+                if tgt is not None and any(
+                        isinstance(dn, (ast.Attribute, ast.Name)) and
+                        (prog.dotted_of(r[1][0], dn) or "").startswith(("random.", "numpy.random."))
+                        for dn in list(tgt.args.defaults) + [k for k in tgt.args.kw_defaults if k is not None]):
+                    counts["E1"] += 1
             if d is None:
                 continue
             if d.startswith("random.") or d.startswith("numpy.random."):
@@ -228,6 +240,16 @@ def scan_module(prog, m):
             if name in ("MappingProxyType", "frozenset", "tuple", "namedtuple", "NamedTuple"):
                 return False            # a read-only view / an immutable value
             K0 = prog.resolve_class(m, f) if isinstance(f, (ast.Name, ast.Attribute)) else None
+            if K0 is not None and (prog.find_method(K0, "__get__")[1] is not None or
+                                   any(str(b).rsplit(".", 1)[-1] == "property" for b in prog.ext_bases(K0))):
+                # a descriptor: shared by design; it is state only if something other than its construction
+                # (__init__ / __set_name__) assigns its attributes
+                later = [x for k in prog.mro(K0) for mn, fn in k.methods.items() if mn not in ("__init__", "__set_name__")
+                         for x in ast.walk(fn)
+                         if isinstance(x, ast.Attribute) and isinstance(x.ctx, (ast.Store, ast.Del)) and
+                         isinstance(x.value, ast.Name) and fn.args.args and x.value.id == fn.args.args[0].arg]
+                if not later:
+                    return False
             if K0 is not None and not prog.ext_bases(K0) and not any(
                     isinstance(x, ast.Attribute) and isinstance(x.ctx, (ast.Store, ast.Del))
                     for k in prog.mro(K0) for x in ast.walk(k.node)):
